@@ -124,6 +124,10 @@ pub struct Cfg {
     /// Free-form per-configuration parameter for harnesses that bring their own agent.
     #[serde(default)]
     pub extra: String,
+    /// Seed of the runtime's random number generator (start branch of unbiased `select!`s, e.g. in
+    /// the agent's main loop and the HTTP task).
+    #[serde(default)]
+    pub seed: u64,
 }
 
 impl Cfg {
@@ -147,6 +151,7 @@ impl Cfg {
             store_fault: None,
             restart: false,
             extra: String::new(),
+            seed: 0,
         }
     }
 }
@@ -1062,6 +1067,10 @@ impl World for AsWorld {
             let brief: Vec<String> = s.iter().filter(|(_, v)| v.map(|x| x.0 > 0).unwrap_or(true)).map(|(n, v)| format!("{}={:?}", n, v.map(|x| x.0))).collect();
             self.log(format!("link counts: {}", brief.join(" ")));
         }
+    }
+
+    fn rng_seed(cfg: &Cfg) -> u64 {
+        cfg.seed
     }
 
     fn finish(mut self) -> Outcome {
